@@ -48,6 +48,16 @@ def epic_moves(ctx, r):
                 ex(["--json", "set", t], json.dumps({"epic": e2}).encode()); want[t] = e2
             else:
                 ex(["--json", "set", t], b'{"epic":""}'); want[t] = ""
+            if r.p(30):
+                # the task was created on a machine whose clock runs ahead (logs merged through git): its creation time is later than the move
+                lines = st.log_bytes().split(b"\n")
+                for li, ln in enumerate(lines):
+                    if b'"type":"new_task"' in ln and ('"id":"%s"' % t).encode() in ln:
+                        ev = json.loads(ln)
+                        ev["ts"] = "2031-01-01T00:00:00Z"; ev["data"]["created_at"] = "2031-01-01T00:00:00Z"
+                        lines[li] = json.dumps(ev, separators=(",", ":"), ensure_ascii=False).encode()
+                open(st.log_path(), "wb").write(b"\n".join(lines))
+                trace.append({"edit": "creation time of task %s rewritten to 2031 (a writer with a fast clock)" % t})
             if r.p(60):
                 ex(["--json", "--agent", "p", "prune", "--yes"])
             if r.p(50):
@@ -76,8 +86,13 @@ def run(ctx):
     r = gen.Rng(ctx.seed * 1000003 + 14)
     for h in range(25 if ctx.quick else 400):
         run_history(ctx, r.fork(), 35, WEIGHTS, oracle, gen_fn=gen_fn)
-    for i in range(3 if ctx.quick else 60):
+    for i in range(4 if ctx.quick else 60):
         epic_moves(ctx, r.fork())
+    rr_ = fndiff.run_stream(ctx.ev, ["fn-replay", str(ctx.seed + 1401), "1500" if ctx.quick else "20000"])
+    ctx.tie("T2-fn replay/compactEvents (epic assignments in any order, any timestamps)", cases=rr_["cases"], disagreements=len(rr_["diffs"]))
+    ctx.count(rr_["cases"])
+    for d in rr_["diffs"][:3]:
+        ctx.tie_broken("T2-fn replay/compactEvents", {"first_difference": fndiff.first_difference(d["go"], d["model"])})
     # the reference is checked in one lock section and the epic pruned in another process: every schedule of prune ∥ (new|set under an
     # empty epic) and of (new|set under an epic) ∥ prune on the real binary, A parked before / inside / after its lock section
     framework.check_facts(ctx, ctx.facts, ["lock_sites", "writer_calls", "with_lock", "sections"])
